@@ -1,5 +1,6 @@
 import logging
 import os
+from contextlib import suppress
 from functools import partial
 
 from textx.export import PlantUmlRenderer, metamodel_export, model_export
@@ -24,6 +25,17 @@ def get_output_filename(input_file, output_path, fileext):
     return output_file
 
 
+def _file_signature(file_name):
+    """
+    Size and modification time of the file, or None if it does not exist.
+    """
+    try:
+        st = os.stat(file_name)
+    except OSError:
+        return None
+    return (st.st_size, st.st_mtime_ns)
+
+
 def gen_file(
     input_file, output_file, gen_callback, overwrite=False, success_message="Done."
 ):
@@ -42,7 +54,17 @@ def gen_file(
     """
     if overwrite or not os.path.exists(output_file):
         logger.info("-> %s", output_file)
-        gen_callback()
+        before = _file_signature(output_file)
+        try:
+            gen_callback()
+        except:  # noqa
+            # Do not leave a partially written output behind: a later run
+            # without overwrite would skip it as already generated. (An
+            # output that the failed callback did not touch is kept.)
+            if _file_signature(output_file) != before:
+                with suppress(OSError):
+                    os.remove(output_file)
+            raise
         logger.info("     %s", success_message)
     else:
         logger.warning("-- NOT overwriting: %s", output_file)
